@@ -1172,7 +1172,7 @@ def _ca_params():
     return out
 
 
-@obligation(PROP, params=_ca_params(), rounds=2, rounds2=3, wall_s=250, timeout_s=330, max_rows=60000)
+@obligation(PROP, params=_ca_params(), rounds=2, rounds2=3, wall_s=250, timeout_s=330, max_rows=60000, solver_timeout_ms=600000)
 def canonize_around(mk, geom, tag, opt):
     """canonize_around(tags, ...): value, labels, every flagged tensor isometric; on a tree with
     absorb='right' every tensor within max_distance (and beyond min_distance) of the region is an
@@ -1745,9 +1745,9 @@ def isometrize_flagged(mk, method):
 # ====================================================================== cells beyond the certificate budget
 # Cells of the option grids above whose certificates (two QR + one SVD contract per bond, several bonds per
 # sweep) were not found within the per-obligation budget (Q-CERT 'unknown' / CPU timeout) in the build run.
-# They are removed from the registry instead of burning the budget on every run; the same operations are
-# covered on the smaller networks ('pair', 'pairwide', 'chain3') and every removed cell still runs in the
-# numeric cross-run of its family through the smaller cells' code paths.  Listed in META['outside'].
+# They are demoted to clearly labelled NUMERIC-ONLY supplements: the symbolic pass only records the note, the
+# same harness runs on random float data against the independent reference (required to succeed).  The
+# operations themselves are certified symbolically on the smaller networks ('pair', 'pairwide', 'chain3').
 _UNREACHED = {
     "bond_with_gauges[geom=multi,pair=AB,fn=compress,smudge=0.0]",
     "bond_with_gauges[geom=multi,pair=AB,fn=compress,smudge=1e-06]",
@@ -1816,9 +1816,25 @@ _UNREACHED = {
     "gauge_local[geom=tri,opt=simple]",
 }
 
+
+def _numeric_only(fn):
+    def wrapped(mk, **kw):
+        if mk.sym:
+            mk.note("numeric-only: certificate for this (geometry, option) cell is beyond the budget; checked on random float data")
+            mk.same("numeric-only cell", True, True)
+            return
+        return fn(mk, **kw)
+    wrapped.__name__ = fn.__name__
+    wrapped.__doc__ = fn.__doc__
+    return wrapped
+
+
 from qv import harness as _H
-_H.REGISTRY[PROP][:] = [ob for ob in _H.REGISTRY[PROP] if ob.name not in _UNREACHED]
+for _ob in _H.REGISTRY[PROP]:
+    if _ob.name in _UNREACHED:
+        _ob.fn = _numeric_only(_ob.fn)
+        _ob.opts = dict(_ob.opts, numeric_required=True)
 META["outside"].append(f"{len(_UNREACHED)} (geometry, option) cells of canonize_around(absorb='both' / gauge_links on ring4), gauge_all(canonize / simple) "
                        "beyond two tensors, compress_all* beyond two tensors, tensor_compress_bond with gauges on multibonds / loops: "
-                       "certificates not found within the budget (listed in props/c04.py:_UNREACHED); the operations are certified on the "
-                       "two-tensor networks and, for single bonds, on every geometry")
+                       "certificates not found within the budget -> numeric-only supplements (listed in props/c04.py:_UNREACHED); the operations "
+                       "are certified symbolically on the two-tensor networks and, for single bonds, on every geometry")
